@@ -17,16 +17,38 @@ import (
 )
 
 func families(tier string) []*goprog.Family {
+	all := allFamilies(tier)
+	// debugging aid only: C01_ONLY=F8,F9 restricts the run to some families
+	if only := os.Getenv("C01_ONLY"); only != "" {
+		var sel []*goprog.Family
+		for _, f := range all {
+			for _, p := range strings.Split(only, ",") {
+				if strings.HasPrefix(f.Name, p) {
+					sel = append(sel, f)
+					break
+				}
+			}
+		}
+		return sel
+	}
+	return all
+}
+
+func allFamilies(tier string) []*goprog.Family {
 	return []*goprog.Family{
+		// the small families whose cases may hang (20 s watchdog) go first, so that the wait overlaps with the rest
+		f9PlainFamily(),
+		listFamily("F6.templates", f6Cases()),
+		f4Family(tier),
 		f1Family(tier),
 		listFamily("F2.strings", f2Cases(tier)),
 		f3Family(tier),
 		f5Family(tier),
+		f7Family(),
 		f8Recursion(tier),
 		f8Go(tier),
 		f9SelectFamily(tier, false),
 		f9SelectFamily(tier, true),
-		f9PlainFamily(),
 	}
 }
 
